@@ -91,7 +91,8 @@ func GenCustomOverride(t *rapid.T) map[string]uint64 {
 	o["TARGET_COMMITTEE_SIZE"] = pick(t, "TARGET_COMMITTEE_SIZE", 2, 4)
 	o["MAX_COMMITTEES_PER_SLOT"] = pick(t, "MAX_COMMITTEES_PER_SLOT", 1, 2, 4)
 	o["SHUFFLE_ROUND_COUNT"] = pick(t, "SHUFFLE_ROUND_COUNT", 3, 10, 10, 90)
-	o["SLOTS_PER_HISTORICAL_ROOT"] = spe * pick(t, "SPHR_mult", 2, 4, 8, 3)
+	// not always a whole number of epochs: the historical batch is then due every floor(SPHR/SPE) epochs
+	o["SLOTS_PER_HISTORICAL_ROOT"] = spe*pick(t, "SPHR_mult", 2, 4, 8, 3) + pick(t, "SPHR_off", 0, 0, 0, 1, 3)
 	o["EPOCHS_PER_HISTORICAL_VECTOR"] = pick(t, "EPOCHS_PER_HISTORICAL_VECTOR", 8, 16, 64, 12)
 	o["EPOCHS_PER_SLASHINGS_VECTOR"] = pick(t, "EPOCHS_PER_SLASHINGS_VECTOR", 4, 8, 64, 6)
 	o["EPOCHS_PER_ETH1_VOTING_PERIOD"] = pick(t, "EPOCHS_PER_ETH1_VOTING_PERIOD", 1, 1, 2, 4)
@@ -112,7 +113,7 @@ func GenCustomOverride(t *rapid.T) map[string]uint64 {
 	o["MAX_VOLUNTARY_EXITS"] = pick(t, "MAX_VOLUNTARY_EXITS", 1, 3, 16)
 	o["MAX_BLS_TO_EXECUTION_CHANGES"] = pick(t, "MAX_BLS_TO_EXECUTION_CHANGES", 1, 2, 16)
 	o["MAX_WITHDRAWALS_PER_PAYLOAD"] = pick(t, "MAX_WITHDRAWALS_PER_PAYLOAD", 1, 2, 4)
-	o["MAX_VALIDATORS_PER_WITHDRAWALS_SWEEP"] = pick(t, "MAX_VALIDATORS_PER_WITHDRAWALS_SWEEP", 2, 5, 16)
+	o["MAX_VALIDATORS_PER_WITHDRAWALS_SWEEP"] = pick(t, "MAX_VALIDATORS_PER_WITHDRAWALS_SWEEP", 2, 5, 16, 100)
 	o["MAX_BLOBS_PER_BLOCK"] = pick(t, "MAX_BLOBS_PER_BLOCK", 1, 6)
 	o["VALIDATOR_REGISTRY_LIMIT"] = pick(t, "VALIDATOR_REGISTRY_LIMIT", 1<<40, 1<<40, 1024)
 	o["HISTORICAL_ROOTS_LIMIT"] = pick(t, "HISTORICAL_ROOTS_LIMIT", 1<<24, 64)
